@@ -340,6 +340,8 @@ class Executor:
         ty = self.ptype(node.annotation)
         if v.kind == 'any' and ty.kind != 'any':
             v = v.with_ty(ty)
+            # A-ANNOT: a local annotation of the real code is trusted as a type assumption
+            st.assume_type(v)
         elif v.kind == 'list' and ty.kind == 'list' and v.ty.args and v.ty.args[0].kind == 'any':
             v = v.with_ty(ty)
         elif v.kind == 'dict' and ty.kind == 'dict' and v.ty.args and v.ty.args[0].kind == 'any':
@@ -1066,6 +1068,9 @@ class Executor:
                 return lh
             fi = self.repo.resolve_method(cls, name) if cls else None
             if cls and fi is None and self.repo.find_class(cls) is None:
+                rec = [flds for dotted, flds in self.lib.LIB_RECORDS.items() if dotted.split('.')[-1] == cls]
+                if rec and name in rec[0]:
+                    return V(st.read(as_ref(obj), name), ANY)
                 # object of a library class (DataFrame, ...): methods are resolved by LIBSPEC hooks
                 return v_py(('bound', obj, name))
             if fi is not None:
@@ -1592,6 +1597,14 @@ class Executor:
         if fv.kind != 'py':
             if fv.kind == 'ref' and fv.ty.cls and self.repo.resolve_method(fv.ty.cls, '__call__'):
                 return self.dunder(st, fv, '__call__', args, node)
+            if fv.kind in ('any', 'opt'):
+                # a callable stored in a variable / field: deterministic function of its arguments
+                self.ctx.note('A-CALLABLE: stored callables are modelled as pure uninterpreted functions of their arguments')
+                kws = sorted(kwargs)
+                f = uf(f'apply!{len(args)}!' + ','.join(kws), *([Val] * (1 + len(args) + len(kws))), Val)
+                res_t = f(fv.t, *[self.box(st, a) for a in args], *[self.box(st, kwargs[k]) for k in kws])
+                self.returned_object(st, res_t)
+                return V(res_t, ANY)
             raise Unsupported(f'call of a non-callable value ({fv.kind}) at line {getattr(node, "lineno", 0)}')
         p = fv.py
         tag = p[0]
@@ -1624,6 +1637,15 @@ class Executor:
         if h is not None:
             return h
         raise Unsupported(f'call of {p[:2]} at line {getattr(node, "lineno", 0)}')
+
+    def returned_object(self, st: State, res_t):
+        """An object returned by an opaque callee exists now: objects allocated later by this
+        function are distinct from it (the allocation pointer moves past it)."""
+        if st.spec:
+            return
+        r = Val.rv(res_t)
+        st.alloc = z3.If(z3.And(Val.is_ref(res_t), r >= st.alloc), r + 1, st.alloc)
+        st.assume(z3.Implies(Val.is_ref(res_t), r >= 0))
 
     def call_closure(self, st, p, args, kwargs, node):
         fn = p[1]
@@ -1811,15 +1833,22 @@ class Executor:
             return obj
         if init is None:
             # NamedTuple / dataclass style: fields from annotations
-            names = list(ci.field_types)
+            # dataclass / NamedTuple fields, base classes first
+            names, defaults = [], {}
+            for c in reversed(self.repo.mro(ci)):
+                for nme in c.field_types:
+                    if nme not in names:
+                        names.append(nme)
+                    if nme in c.class_attrs:
+                        defaults[nme] = (c, c.class_attrs[nme])
             if names and (any('NamedTuple' in b for b in ci.bases) or 'dataclass' in ''.join(ast.unparse(d) for d in ci.node.decorator_list)):
                 vals_ = dict(zip(names, args))
                 vals_.update(kwargs)
                 for nme in names:
                     if nme in vals_:
                         st.write(r, nme, self.box(st, vals_[nme]))
-                    elif nme in ci.class_attrs:
-                        st.write(r, nme, self.ev(st, ci.class_attrs[nme]).t)
+                    elif nme in defaults:
+                        st.write(r, nme, self.box(st, self.ev(st, defaults[nme][1])))
                     else:
                         raise Raised('TypeError')
                 if any('NamedTuple' in b for b in ci.bases):
@@ -1886,7 +1915,7 @@ class Executor:
             st.locals = env
             for label, src in con.requires.items():
                 if not st.spec:
-                    g = self.spec_goal(st, 'pre@callsite', f'{fi.name}:{label}@L{getattr(node, "lineno", 0)}', src, {},
+                    g = self.spec_goal(st, 'pre@callsite', f'{fi.name}:{label}', src, {},
                                        line=getattr(node, 'lineno', 0))
                     st.assume(g)
             # raises: a contract may say under which condition the callee raises
